@@ -27,6 +27,8 @@ EXHAUSTIVE_SCOPE = "all operation sequences of length <= L over the alphabet c14
 
 ALPHABET = ["createA", "createB", "create2A", "delFirst", "delMiddle", "delLast", "delAbsent", "delSet", "configure", "reset",
             "busy"]
+# used by the random histories only (the exhaustive part keeps the 11-letter alphabet)
+EXTRA = ["configureA", "configureDup", "configureEmpty", "createFailing", "createNested"]
 TYPES = ["A", "B"]
 STATES = ["active", "busy"]
 
@@ -45,8 +47,22 @@ def _mk_model():
             self.state = "active"
 
     m = Model(starttime=0, stoptime=5, dt=1, name="reg", scheduler=SimultaneousScheduler(), data_collector=DataCollector())
-    m.register_agent_factory("A", lambda agent_id, model, properties: AgA(agent_id, model, properties))
-    m.register_agent_factory("B", lambda agent_id, model, properties: AgB(agent_id, model, properties))
+    class AgF(Agent):
+        """an agent whose initialisation fails (e.g. invalid properties)"""
+        def initialize(self):
+            self.agent_type = "A"
+            raise ValueError("cannot initialise")
+
+    class AgP(Agent):
+        """a parent that creates two children while it is being initialised"""
+        def initialize(self):
+            self.agent_type = "B"
+            self.state = "active"
+            self.model.create_agent("A", {})
+            self.model.create_agent("A", {})
+
+    m.register_agent_factory("A", lambda agent_id, model, properties: (AgF if (properties or {}).get("fail") else AgA)(agent_id, model, properties))
+    m.register_agent_factory("B", lambda agent_id, model, properties: (AgP if (properties or {}).get("nested") else AgB)(agent_id, model, properties))
     return m
 
 
@@ -99,6 +115,25 @@ def _apply(op, m, ref):
         tg = [ids[0], ids[-1]] if ids else []
         m.delete_agents(tg)
         return ("deleted", tg, None)
+    if op in ("configureA", "configureDup", "configureEmpty"):
+        cfg = {"configureA": [{"name": "A", "count": 2}], "configureDup": [{"name": "A", "count": 1}, {"name": "B", "count": 1}, {"name": "A", "count": 2}],
+               "configureEmpty": []}[op]
+        m.configure_agents(cfg)
+        new = [x.id for x in m.agents]
+        types = [t for c in cfg for t in [c["name"]] * c["count"]]
+        return ("configured", new, types)
+    if op == "createFailing":
+        try:
+            m.create_agent("A", {"fail": True})
+        except ValueError:
+            pass
+        return ("failed-create", [], None)
+    if op == "createNested":
+        before = set(x.id for x in m.agents)
+        p = m.create_agent("B", {"nested": True})
+        new = sorted(x.id for x in m.agents if x.id not in before)
+        # the parent gets its id first, the children the next two
+        return ("created", new, ["B", "A", "A"])
     if op == "configure":
         before = set(x.id for x in m.agents)
         m.configure_agents([{"name": "A", "count": 1}, {"name": "B", "count": 2}])
@@ -207,6 +242,8 @@ def check_case(case):
                     ref.live[i] = [ty, "active"]
                     ref.ever.add(i)
                     ref.next_id = max(ref.next_id, i + 1)
+        elif what == "failed-create":
+            ref.next_id = max(ref.next_id, m.next_agent_id)
         elif what == "deleted":
             ref.delete(ids)
         elif what == "configured":
@@ -250,7 +287,8 @@ def _body(ctx):
 def plan(tier):
     L = 4 if tier == "quick" else 5
     specs = [{"kind": "enum", "L": L, "part": i, "of": 12} for i in range(12)]
-    specs += [{"kind": "random", "n": 150 if tier == "quick" else 3000} for _ in range(4)]
+    specs += [{"kind": "random", "n": 200 if tier == "quick" else 3000} for _ in range(4)]
+    specs += [{"kind": "enum-extra", "L": 3 if tier == "quick" else 4}]
     return specs
 
 
@@ -266,6 +304,15 @@ def run_shard(spec, ctx):
                     k += 1
         ctx.enum(cases(), body)
         ctx.exhaustive = True
+    elif spec["kind"] == "enum-extra":
+        def cases():
+            # every sequence up to length L that contains at least one of the extra operations
+            for n in range(1, spec["L"] + 1):
+                for seq in itertools.product(["createA", "createB", "delFirst", "delLast", "busy"] + EXTRA, repeat=n):
+                    if any(o in EXTRA for o in seq):
+                        yield {"ops": list(seq)}
+        ctx.enum(cases(), body)
+        ctx.exhaustive = True
     else:
-        strat = st.fixed_dictionaries({"ops": st.lists(st.sampled_from(ALPHABET), min_size=5, max_size=60)})
+        strat = st.fixed_dictionaries({"ops": st.lists(st.sampled_from(ALPHABET + EXTRA), min_size=5, max_size=60)})
         ctx.hyp(strat, body, spec["n"])
